@@ -10,6 +10,7 @@ structure Index where
   hasVal : Bool
   val : Int
   vectorLen : Nat
+  scalable : Bool := false
   deriving Repr, DecidableEq
 
 /-- body of an identified struct (environment) -/
@@ -17,39 +18,41 @@ abbrev Env := Bytes → Option TyList
 
 /-- gep.ResultType -/
 def resultType (env : Env) (elem src : Ty) (idxs : List Index) : R :=
-  let base : Option (Nat × Nat) :=          -- (addrspace, result vector length)
+  let base : Option (Nat × Nat × Bool) :=          -- (addrspace, result vector length, result scalable)
     match src with
-    | .ptr _ as => some (as, 0)
-    | .vec _ n (.ptr _ as) => some (as, n)
+    | .ptr _ as => some (as, 0, false)
+    | .vec s n (.ptr _ as) => some (as, n, s)
     | _ => none
   match base with
   | none => .panic
-  | some (as, rvl0) =>
-    let rec go (e : Ty) (rvl : Nat) (first : Bool) : List Index → R
+  | some (as, rvl0, rsc0) =>
+    let rec go (e : Ty) (rvl : Nat) (rsc : Bool) (first : Bool) : List Index → R
       | [] =>
         let p := Ty.ptr e as
-        if rvl != 0 then .ok (.vec false rvl p) else .ok p
+        if rvl != 0 then .ok (.vec rsc rvl p) else .ok p
       | ix :: rest =>
         if ix.vectorLen != 0 && rvl != 0 && ix.vectorLen != rvl then .panic
         else
-          let rvl := if rvl == 0 && ix.vectorLen != 0 then ix.vectorLen else rvl
-          if first then go e rvl false rest
+          let widen := rvl == 0 && ix.vectorLen != 0
+          let rsc := if widen then ix.scalable else rsc
+          let rvl := if widen then ix.vectorLen else rvl
+          if first then go e rvl rsc false rest
           else match e with
             | .ptr _ _ => .panic
-            | .vec _ _ el => go el rvl false rest
-            | .arr _ el => go el rvl false rest
+            | .vec _ _ el => go el rvl rsc false rest
+            | .arr _ el => go el rvl rsc false rest
             | .struct _ fs =>
               if !ix.hasVal then .panic
               else if ix.val < 0 then .panic
-              else (match fs.get? ix.val.toNat with | some f => go f rvl false rest | none => .panic)
+              else (match fs.get? ix.val.toNat with | some f => go f rvl rsc false rest | none => .panic)
             | .named n => (match env n with
               | some fs =>
                 if !ix.hasVal then .panic
                 else if ix.val < 0 then .panic
-                else (match fs.get? ix.val.toNat with | some f => go f rvl false rest | none => .panic)
+                else (match fs.get? ix.val.toNat with | some f => go f rvl rsc false rest | none => .panic)
               | none => .panic)
             | _ => .panic
-    go elem rvl0 true idxs
+    go elem rvl0 rsc0 true idxs
 
 /-- constant index forms -/
 inductive IdxConst where
@@ -76,45 +79,52 @@ def allEq (v : Int) : List Int → Bool
 def getIndexIR (c : IdxConst) : Option Index :=
   let c := match c with | .inrange c' => c' | c => c
   match c with
-  | .int v => some ⟨true, IntLit.int64Of v, 0⟩
-  | .zero => some ⟨true, 0, 0⟩
-  | .vecInts [] => some ⟨false, 0, 0⟩
+  | .int v => some ⟨true, IntLit.int64Of v, 0, false⟩
+  | .zero => some ⟨true, 0, 0, false⟩
+  | .vecInts [] => some ⟨false, 0, 0, false⟩
   | .vecInts (v :: vs) =>
     let v64 := IntLit.int64Of v
-    if allEq v64 (vs.map IntLit.int64Of) then some ⟨true, v64, vs.length + 1⟩ else some ⟨false, 0, vs.length + 1⟩
-  | .vecOther 0 => some ⟨false, 0, 0⟩
+    if allEq v64 (vs.map IntLit.int64Of) then some ⟨true, v64, vs.length + 1, false⟩ else some ⟨false, 0, vs.length + 1, false⟩
+  | .vecOther 0 => some ⟨false, 0, 0, false⟩
   | .vecOther _ => none                       -- panic: unsupported element
-  | .undef => some ⟨false, 0, 0⟩
-  | .poison => some ⟨false, 0, 0⟩
-  | .expr _ => some ⟨false, 0, 0⟩
+  | .undef => some ⟨false, 0, 0, false⟩
+  | .poison => some ⟨false, 0, 0, false⟩
+  | .expr _ => some ⟨false, 0, 0, false⟩
   | .inrange _ => none                        -- nested inrange: not produced
 
-/-- gepInstType's per-index classification -/
+/-- "Check if index is of vector type": the vector length and scalability of the index's TYPE override
+    (a vector type of length 0 leaves VectorLen 0, which is what the model's `tyVecLen = 0` stands for) -/
+def withType (a : IdxArg) (ix : Index) : Index :=
+  if a.tyVecLen != 0 then { ix with vectorLen := a.tyVecLen, scalable := a.tyScalable } else ix
+
+/-- gepInstType's per-index classification (ir/inst_memory.go) -/
 def classifyInst (a : IdxArg) : Option Index :=
   match a.c with
-  | some c => getIndexIR c
-  | none => some ⟨false, 0, a.tyVecLen⟩
+  | some c => (getIndexIR c).map (withType a)
+  | none => some (withType a ⟨false, 0, 0, false⟩)
 
-/-- gepExprType's per-index classification (the vector length of the TYPE overrides) -/
+/-- gepExprType's per-index classification (ir/constant/expr_memory.go; constants only) -/
 def classifyExpr (a : IdxArg) : Option Index :=
   match a.c with
-  | some c => (getIndexIR c).map fun ix => if a.tyVecLen != 0 then { ix with vectorLen := a.tyVecLen } else ix
+  | some c => (getIndexIR c).map (withType a)
   | none => none
 
-/-- asm getIndex on AST constants -/
+/-- asm getIndex on AST constants, then the same type check (asm/inst_memory.go) -/
+def getIndexAsm : IdxConst → Option Index
+  | .int v => some ⟨true, IntLit.int64Of v, 0, false⟩
+  | .zero => some ⟨true, 0, 0, false⟩
+  | .vecInts vs => getIndexIR (.vecInts vs)
+  | .vecOther 0 => some ⟨false, 0, 0, false⟩
+  | .vecOther _ => none
+  | .undef => some ⟨false, 0, 0, false⟩
+  | .poison => some ⟨false, 0, 0, false⟩
+  | .expr _ => some ⟨false, 0, 0, false⟩
+  | .inrange _ => none                        -- instruction indices have no inrange form
+
 def classifyAsm (a : IdxArg) : Option Index :=
   match a.c with
-  | none => some ⟨false, 0, a.tyVecLen⟩
-  | some (.int v) => some ⟨true, IntLit.int64Of v, 0⟩
-  | some .zero => some ⟨true, 0, 0⟩
-  | some (.vecInts vs) => getIndexIR (.vecInts vs)
-  | some (.vecOther 0) => some ⟨false, 0, 0⟩
-  | some (.vecOther _) => none
-  | some .undef => some ⟨false, 0, 0⟩
-  | some .poison => some ⟨false, 0, 0⟩
-  | some (.expr true) => some ⟨false, 0, 0⟩
-  | some (.expr false) => none               -- panic: unsupported constant expression
-  | some (.inrange _) => none
+  | none => some (withType a ⟨false, 0, 0, false⟩)
+  | some c => (getIndexAsm c).map (withType a)
 
 def mapM? (f : α → Option β) : List α → Option (List β)
   | [] => some []
@@ -133,12 +143,17 @@ def gepAsm := gepWith classifyAsm
 
 namespace LLVMSpec
 /-- the constant value of an index usable for struct stepping -/
-def constVal : IdxArg → Option Int
-  | ⟨some (.int v), _, _⟩ => some v
-  | ⟨some .zero, _, _⟩ => some 0
-  | ⟨some (.vecInts (v :: vs)), _, _⟩ => if allEq v vs then some v else none
-  | ⟨some (.inrange (.int v)), _, _⟩ => some v
+def constOf : IdxConst → Option Int
+  | .int v => some v
+  | .zero => some 0
+  | .vecInts (v :: vs) => if allEq v vs then some v else none
   | _ => none
+
+def constVal (a : IdxArg) : Option Int :=
+  match a.c with
+  | some (.inrange c) => constOf c
+  | some c => constOf c
+  | none => none
 
 def step (env : Env) (e : Ty) (a : IdxArg) : Option Ty :=
   match e with
@@ -158,18 +173,29 @@ def vecShape (src : Ty) (args : List IdxArg) : Option (Bool × Nat) :=
   | .vec s n _ => some (s, n)
   | _ => (args.find? (fun a => a.tyVecLen != 0)).map fun a => (a.tyScalable, a.tyVecLen)
 
-/-- LangRef getelementptr: pointer (in the base's address space) to the element reached, widened to a
-    vector of pointers when the base or any index is a vector -/
+/-- LangRef: "all vector arguments should have the same number of elements" (and the same scalability) -/
+def vectorOperandsAgree (src : Ty) (args : List IdxArg) : Bool :=
+  match vecShape src args with
+  | none => true
+  | some (s, n) => n != 0 && args.all fun a => a.tyVecLen == 0 || (a.tyVecLen == n && a.tyScalable == s)
+
+def wrap (sh : Option (Bool × Nat)) (as : Nat) (e : Ty) : Ty :=
+  match sh with
+  | some (s, n) => .vec s n (.ptr e as)
+  | none => .ptr e as
+
+/-- address space of the base: of the pointer, or of the pointers in the base vector -/
+def baseAS : Ty → Option Nat
+  | .ptr _ as => some as
+  | .vec _ _ (.ptr _ as) => some as
+  | _ => none
+
+/-- LangRef getelementptr: pointer (in the base's address space) to the element reached by the indices
+    after the first, widened to a vector of pointers when the base or any index is a vector -/
 def gepType (env : Env) (elem src : Ty) (args : List IdxArg) : Option Ty :=
-  let as? : Option Nat := match src with | .ptr _ as => some as | .vec _ _ (.ptr _ as) => some as | _ => none
-  match as?, args with
-  | some as, _ :: rest =>
-    (walk env elem rest).map fun e =>
-      match vecShape src args with
-      | some (s, n) => .vec s n (.ptr e as)
-      | none => .ptr e as
-  | some as, [] => some (match vecShape src [] with | some (s, n) => .vec s n (.ptr elem as) | none => .ptr elem as)
-  | none, _ => none
+  match baseAS src with
+  | none => none
+  | some as => (walk env elem args.tail).map (wrap (vecShape src args) as)
 end LLVMSpec
 
 end Llir.Gep
